@@ -62,10 +62,11 @@ fn gen(rng: &mut Rng, kind: u64) -> [f32; 3] {
             [g as f32, (g + (rng.unit() - 0.5) * s).clamp(0.0, 1.0) as f32, (g + (rng.unit() - 0.5) * s).clamp(0.0, 1.0) as f32]
         }
         3 => {
+            // (-0.0 is a value of [0,1] too: it compares equal to 0)
             let mut p = [u(rng), u(rng), u(rng)];
-            p[rng.below(3) as usize] = if rng.coin() { 0.0 } else { 1.0 };
+            p[rng.below(3) as usize] = rng.pick(&[0.0f32, 1.0, -0.0, 0.0, 1.0]);
             if rng.below(4) == 0 {
-                p[rng.below(3) as usize] = if rng.coin() { 0.0 } else { 1.0 };
+                p[rng.below(3) as usize] = rng.pick(&[0.0f32, 1.0, -0.0]);
             }
             p
         }
@@ -80,7 +81,8 @@ fn gen(rng: &mut Rng, kind: u64) -> [f32; 3] {
         }
         5 => {
             let c = rng.below(8);
-            [(c & 1) as f32, ((c >> 1) & 1) as f32, ((c >> 2) & 1) as f32]
+            let z = if rng.below(4) == 0 { -0.0f32 } else { 0.0 };
+            [if c & 1 == 1 { 1.0 } else { z }, if (c >> 1) & 1 == 1 { 1.0 } else { 0.0 }, if (c >> 2) & 1 == 1 { 1.0 } else { z }]
         }
         6 => {
             // two channels equal (a sextant boundary), then one of them moved by a few ulps
